@@ -107,6 +107,8 @@ def relayout_input(job):
             # mostly in front of the next token; sometimes right behind the previous one (before the line end, when the gap
             # holds one); a gap without any layout is relaid out like any other
             pos = a if (a < b and rng.random() < 0.4) else b
+            if pos == a and a > 0 and ((t[a - 1] == "/" and lay[:1] in ("/", "*")) or (t[a - 1] == "\\")):
+                pos = b  # `/` directly followed by a comment start is another comment, not a token and layout
             if on_directive and tk.type in ("PRAGMA_DIRECTIVE", "INCLUDE_DIRECTIVE"):
                 # nothing precedes the directive token on its line but blanks; the end of the line BEFORE it is an ordinary
                 # place for layout when that line is not a directive line itself
@@ -123,7 +125,7 @@ def relayout_input(job):
                      "diff": "result changed by layout %r before token %r: %s" % (lay, tk.value, str(canon.first_diff(json.loads(bview), json.loads(view(r2))))[:250])}
                 le = t.find("\n", pos)
                 at_line_end = t[pos: le if le >= 0 else len(t)].strip() == ""
-                if on_directive and at_line_end and directive_line(t, max(0, pos - 1)):
+                if at_line_end and pos > 0 and directive_line(t, pos - 1) and t[pos - 1] != "\n":
                     # the listed finding is about layout before the END of a directive line only
                     f["finding"] = "C09-directive-line"
                 elif "\\\n" in lay and (pos == 0 or t[:pos].rstrip(" \t").endswith("\n") or t[:pos].strip() == "") and lay.lstrip(" \t").startswith("\\"):
@@ -151,7 +153,9 @@ def relayout_input(job):
 def run(ctx):
     rng = ctx.rng("layout")
     inputs = [t for t in pcommon.corpus() if not has_doc(t) and "\\\n" not in t]
-    inputs += ["auto s = \"a\"\"b\"_x;\n", "const char* t = \"x\" \"y\"\"z\"_s;\nint after;\n", "auto u = 1_km+2_km;\n", "auto v = {1_a,2_b};\nauto w = 'c'\"s\"_q;\n",
+    # (the last three: the repaired defect 9b2dc7f — a comment behind a multi-declarator statement before a directive line)
+    inputs += ["int a, b;\n#pragma once\nint y;\n", "struct S { int a, b;\n#pragma pack(1)\n int c; };\n", "int a = 1, b, *c;\n#include <x.h>\nint y;\n",
+               "auto s = \"a\"\"b\"_x;\n", "const char* t = \"x\" \"y\"\"z\"_s;\nint after;\n", "auto u = 1_km+2_km;\n", "auto v = {1_a,2_b};\nauto w = 'c'\"s\"_q;\n",
                "const wchar_t* l = L\"a\"L\"b\"_w;\n", "int x;\n#pragma once\nint y;\n", "struct S { int m;\n#pragma pack(1)\n int n; };\n",
                "enum E { A,\n#pragma region r\n B };\ntypedef int T;\n#pragma endregion\nint z;\n",
                "#pragma omp parallel for schedule(static, 4)\nvoid work(int n);\n",
